@@ -18,6 +18,8 @@ func runFamily(fam string, w *bufio.Writer, r *rng, id, size int, opt string) bo
 		genResult(w, r, id, size)
 	case "redef":
 		genRedef(w, r, id)
+	case "redefgen":
+		genRedefGen(w, r, id)
 	case "conv":
 		genConv(w, r, id)
 	case "hist":
